@@ -139,7 +139,7 @@ func (m *Module) Setup(w *engine.World) {
 // Genesis puts the `random` system service definition into the service genesis (the
 // application's InitChainer would do that on a real chain; simapp has it commented out).
 func (m *Module) Genesis(w *engine.World, n *engine.Node, gs simapp.GenesisState) {
-	m.genesisBulk(n, gs)
+	m.genesisBulk(w, n, gs)
 	cdc := n.App.AppCodec()
 	var g svctypes.GenesisState
 	cdc.MustUnmarshalJSON(gs[svctypes.ModuleName], &g)
@@ -153,7 +153,7 @@ func (m *Module) Genesis(w *engine.World, n *engine.Node, gs simapp.GenesisState
 }
 
 // genesisBulk puts the pending requests of the bulk arm into the random genesis.
-func (m *Module) genesisBulk(n *engine.Node, gs simapp.GenesisState) {
+func (m *Module) genesisBulk(w *engine.World, n *engine.Node, gs simapp.GenesisState) {
 	if m.cfg.GenesisBulk == 0 {
 		return
 	}
@@ -165,9 +165,9 @@ func (m *Module) genesisBulk(n *engine.Node, gs simapp.GenesisState) {
 	}
 	var rs randomtypes.Requests
 	for i := 0; i < m.cfg.GenesisBulk; i++ {
-		rs.Requests = append(rs.Requests, randomtypes.Request{Height: 0, Consumer: bulkConsumer(i).String(), TxHash: strings.Repeat("00", 32)})
+		rs.Requests = append(rs.Requests, randomtypes.Request{Height: w.Base(), Consumer: bulkConsumer(i).String(), TxHash: strings.Repeat("00", 32)})
 	}
-	g.PendingRandomRequests[fmt.Sprint(m.cfg.GenesisDue)] = rs
+	g.PendingRandomRequests[fmt.Sprint(w.Base()+m.cfg.GenesisDue)] = rs
 	gs[randomtypes.ModuleName] = cdc.MustMarshalJSON(&g)
 }
 
